@@ -285,6 +285,9 @@ func init() {
 			c := BaseConfig()
 			c.Horizon = 10 * time.Minute
 			c.StepCap = 150000
+			if r.T.Chance(1, 3) {
+				c.ClockJumps, c.JumpMax, c.JumpWithin = 3, time.Second, 1500
+			}
 			return c
 		},
 		Body:  c18Body,
